@@ -3,7 +3,7 @@
 From Coq Require Import List NArith String Bool.
 From Jamm Require Import Consts.
 Import ListNotations.
-Open Scope N_scope. Open Scope string_scope.
+Local Open Scope N_scope. Local Open Scope string_scope.
 
 Definition align_up (x a : N) : N := ((x + a - 1) / a) * a.
 Definition join (a b : string) : string := if String.eqb b "" then a else a ++ "." ++ b.
